@@ -144,11 +144,11 @@ _ALL = {
         technique="fact walker; expression normal-form comparison; decorator-name rule",
     ),
     "C11": dict(
-        want=["P4", "P9", "P7b", "P11b", "P13", "M5", "P5b"],
+        want=["P4", "P9", "P7b", "P11b", "P13", "M5", "P5b", "L1", "L2"],
         explanation=("Decides two structural necessary conditions: the sort permutation derived from the labels reaches the "
                      "result and count frames on every non-transform path (P4); key names are assigned on every constructing "
                      "path (P9)."
-                     ' Also: first-appearance order of the chunk-wise label union (P7b); common index of group-sorted results (P11b); generated names only for None (P13); pointer offsets (M5); selector index space (P5b).'),
+                     ' Also: first-appearance order of the chunk-wise label union (P7b); common index of group-sorted results (P11b); generated names only for None (P13); pointer offsets (M5); selector index space (P5b); the label sort key ranks each level by the inverse permutation, in level order, and is the identity for categorical / already sorted labels (L1); the result is squeezed to 1-D exactly for a single 1-D input and loses its name only when the input had none (L2).'),
         not_decided=["actual order, category order, lexicographic order, column independence (value-level)"],
         technique="path rules over _apply_gb_reduction / __init__",
     ),
